@@ -63,7 +63,23 @@ class TwoArgs(Exception):
         self.extra = a
 
 
+def _app_render_error():
+    # an application class deriving from the library's marker class (so that one `except RenderError` clause catches every
+    # render failure): raised by an expression it is an ordinary exception - nothing has formatted it yet
+    if not _APP:
+        from chameleon.exc import RenderError
+
+        class AppRenderError(RenderError):
+            pass
+        _APP.append(AppRenderError)
+    return _APP[0]('widget', 7)
+
+
+_APP = []
+
+
 MAKERS = {
+    'AppRenderError': _app_render_error,
     'KeyError': lambda: KeyError('k'),
     'ValueError': lambda: ValueError('bad value', 3),
     'ZeroDivisionError': lambda: ZeroDivisionError('division by zero'),
